@@ -164,8 +164,9 @@ class Lib:
             out.append(Res(res.raw[o:o + c], res.msgs)); o += c
         return out
 
-    def special(self, name, s=None, i=(), d=()):
-        """special executor ids: s = list of strings/None (or single), i/d = lists of broadcastable columns"""
+    def special(self, name, s=None, i=(), d=(), helper=False):
+        """special executor ids: s = list of strings/None (or single), i/d = lists of broadcastable columns;
+        helper: route Refractive_Index / Crystal_F_H_StructureFactor[_Partial] through the by-pointer '...2' entry points of the bindings"""
         cols_i = [np.asarray(x) for x in i]
         cols_d = [np.asarray(x) for x in d]
         strings, sidx = [], None
@@ -193,6 +194,8 @@ class Lib:
             req['d'][:, k] = b[len(cols_i) + k].reshape(-1).astype('f8')
         if sidx is not None:
             req['s'] = b[-1].reshape(-1)
+        if helper:
+            req['d'][:, 9] = 1.0
         return self.run(req, strings)
 
 
